@@ -119,6 +119,10 @@ def _conf():
     import yabgp.config  # noqa: F401  registers bgp/time groups
     import yabgp.api.config  # noqa: F401
     if not _conf_ready:
+        # modules that register command-line options must be imported before the (empty) command line is parsed
+        import yabgp.api.app  # noqa: F401
+        import yabgp.handler.default_handler  # noqa: F401
+    if not _conf_ready:
         try:
             cfg.CONF(args=[], project='yabgp', default_config_files=[])
         except Exception:
@@ -371,6 +375,7 @@ def in_state(state, cfgd=None, hold=None, now=0, allow_auto=True, counters=None,
             p.peer_id = '10.0.0.2'
             if state == ESTABLISHED:
                 p.msg_recv_stat['Keepalives'] = 1
+                f.uptime = 999000.0
             if hold > 0:
                 f.hold_timer.reset(hold)
                 f.keep_alive_timer.reset(f.keep_alive_time)
